@@ -1,6 +1,7 @@
 package main
 
 import (
+	"bytes"
 	"fmt"
 	"time"
 
@@ -8,6 +9,7 @@ import (
 	"github.com/syndtr/goleveldb/leveldb/comparer"
 	"github.com/syndtr/goleveldb/leveldb/opt"
 	"github.com/syndtr/goleveldb/leveldb/storage"
+	"github.com/syndtr/goleveldb/leveldb/util"
 	"verifharness/lib/dbh"
 	"verifharness/lib/vstor"
 )
@@ -182,6 +184,69 @@ func directedCases() (fails []string, n int) {
 				fail("read-only DB (NoWriteMerge=%v) issued %d mutating storage operations, first %s", nm, len(m), m[0])
 			}
 		}
+		n++
+	}
+	// 6. SetReadOnly on a DB opened read-write parks the compaction goroutines: after the drain, reads that
+	//    charge seeks to tables (the request they send used to start a seek compaction) and full scans cause no
+	//    mutating storage operation (the table-compaction goroutine was never parked and kept compacting)
+	{
+		st := vstor.New(false)
+		o := &opt.Options{WriteBuffer: 4096, Compression: opt.NoCompression, DisableCompactionBackoff: true, IteratorSamplingRate: 256}
+		db, err := leveldb.Open(st, o)
+		if err != nil {
+			fail("Open: %v", err)
+			return
+		}
+		val := bytes.Repeat([]byte{'v'}, 100)
+		key := func(i int) []byte { return []byte(fmt.Sprintf("k%04d", i)) }
+		for round := 0; round < 3; round++ {
+			for i := 0; i < 400; i++ {
+				db.Put(key((i*37+round*11)%400), val, nil)
+			}
+			settle(db, st, true, 20*time.Second)
+		}
+		for i := 0; i < 30; i++ { // a last, small level-0 table over the whole key range
+			db.Put(key(i*13), val, nil)
+		}
+		if err := db.CompactRange(util.Range{Start: []byte("zz")}); err != nil {
+			fail("CompactRange: %v", err)
+		}
+		settle(db, st, true, 20*time.Second)
+		st.SetAudit(true)
+		if err := db.SetReadOnly(); err != nil {
+			fail("SetReadOnly: %v", err)
+		}
+		stopped, _ := settleSwitched(db, st, 3*time.Second, 20*time.Second)
+		m0 := len(mutations(st))
+		for round := 0; round < 8; round++ {
+			for i := 0; i < 400; i++ {
+				if _, err := db.Get(key(i), nil); err != nil {
+					fail("Get on the switched read-only DB: %v", err)
+					break
+				}
+			}
+			it := db.NewIterator(nil, nil)
+			for it.Next() {
+			}
+			it.Release()
+		}
+		if err := db.Put(key(1), val, nil); err != leveldb.ErrReadOnly {
+			fail("Put on the switched read-only DB: %v", err)
+		}
+		if err := db.CompactRange(util.Range{}); err != leveldb.ErrReadOnly {
+			fail("CompactRange on the switched read-only DB: %v", err)
+		}
+		time.Sleep(3 * time.Millisecond)
+		if stopped {
+			settle(nil, st, false, 20*time.Second)
+		} else {
+			settle(db, st, true, 20*time.Second)
+		}
+		if ms := mutations(st); len(ms) > m0 {
+			fail("after SetReadOnly and the drain (compaction goroutines stopped: %v) 3200 Gets and 8 scans caused %d mutating storage operations, first %s", stopped, len(ms)-m0, ms[m0])
+		}
+		st.SetAudit(false)
+		db.Close()
 		n++
 	}
 	return
